@@ -180,30 +180,79 @@ def observe(obj, kind):
     return [type(obj).__name__] + bits([c for row in read_mat(obj) for c in row])
 
 
-def mk_rot(kind, ang):
-    """Build a rotation operand; returns (object, reference matrix)."""
-    from srctools.math import Angle, FrozenAngle, FrozenMatrix, Matrix
-    p, y, r = ang
-    if kind == 'Angle':
-        o = Angle(p, y, r)
-        return o, r_rot(*read_ang(o))
-    if kind == 'FrozenAngle':
-        o = FrozenAngle(p, y, r)
-        return o, r_rot(*read_ang(o))
-    if kind == 'Matrix':
-        return Matrix.from_angle(p, y, r), r_rot(p, y, r)
-    if kind == 'FrozenMatrix':
-        return FrozenMatrix.from_angle(p, y, r), r_rot(p, y, r)
-    raise AssertionError(kind)
+TWIN_KIND = {'Vec': 'FrozenVec', 'FrozenVec': 'Vec', 'Angle': 'FrozenAngle', 'FrozenAngle': 'Angle',
+             'Matrix': 'FrozenMatrix', 'FrozenMatrix': 'Matrix'}
+# How an operand of a given kind was obtained.  Every route is documented to preserve the value exactly (copies, freeze /
+# thaw, pickling, pass-through constructors); text round trips and as_tuple() round and are therefore not routes.
+ROUTES = ['direct', 'twin', 'copy', 'copy.copy', 'deepcopy', 'pickle', 'ctor', 'ctor_twin', 'extra', 'extra_twin']
 
 
-def mk_vec(kind, v):
-    from srctools.math import FrozenVec, Vec
-    if kind == 'Vec':
-        return Vec(v[0], v[1], v[2])
-    if kind == 'FrozenVec':
-        return FrozenVec(v[0], v[1], v[2])
-    return (v[0], v[1], v[2])
+def _direct(kind, raw):
+    import srctools.math as sm
+    if kind in ('Matrix', 'FrozenMatrix'):
+        return getattr(sm, kind).from_angle(raw[0], raw[1], raw[2])
+    return getattr(sm, kind)(raw[0], raw[1], raw[2])
+
+
+def routed(kind, raw, route, ctx=None):
+    """An object of ``kind`` standing for the raw numbers, obtained along route number ``route``; returns (object, direct)
+    where ``direct`` is the plainly constructed object of the same kind (the reference is taken from it / the raw numbers)."""
+    import copy
+    import pickle
+    import srctools.math as sm
+    direct = _direct(kind, raw)
+    name = ROUTES[route % len(ROUTES)]
+    cls = getattr(sm, kind)
+    frozen = kind.startswith('Frozen')
+    if name == 'direct':
+        obj = direct
+    elif name == 'twin':            # freeze() of the mutable twin / thaw() of the frozen twin
+        twin = _direct(TWIN_KIND[kind], raw)
+        obj = twin.thaw() if not frozen else twin.freeze()
+        name = 'freeze' if frozen else 'thaw'
+    elif name == 'copy':
+        obj = _direct(kind, raw).copy()
+    elif name == 'copy.copy':
+        obj = copy.copy(_direct(kind, raw))
+    elif name == 'deepcopy':
+        obj = copy.deepcopy(_direct(kind, raw))
+    elif name == 'pickle':
+        obj = pickle.loads(pickle.dumps(_direct(kind, raw), 2 + route % 4))
+    elif name == 'ctor':            # pass-through constructor from the same kind
+        obj = cls(_direct(kind, raw))
+    elif name == 'ctor_twin':       # ... from the twin kind
+        obj = cls(_direct(TWIN_KIND[kind], raw))
+    else:                           # to_matrix() for matrices, from_str(object) pass-through for vectors and angles
+        src = _direct(kind if name == 'extra' else TWIN_KIND[kind], raw)
+        if kind == 'Matrix':
+            obj = sm.to_matrix(src) if name == 'extra' else src.thaw()
+            name = 'to_matrix' if name == 'extra' else 'thaw'
+        elif kind == 'FrozenMatrix':
+            obj = sm.to_matrix(src) if name == 'extra' else src.freeze()
+            name = 'to_matrix' if name == 'extra' else 'freeze'
+        else:
+            obj = cls.from_str(src)
+            name = 'from_str(obj)' if name == 'extra' else 'from_str(twin)'
+    if type(obj) is not cls:
+        raise AssertionError(f'harness: route {name} for {kind} produced a {type(obj).__name__}')
+    if ctx is not None:
+        ctx.label(f'route:{kind}:{name}')
+    return obj, direct
+
+
+def mk_rot(kind, ang, route=0, ctx=None):
+    """Build a rotation operand; returns (object, reference matrix).  The reference comes from the raw numbers (matrices) or
+    from the components the *directly constructed* angle reports - never from the routed object itself."""
+    obj, direct = routed(kind, ang, route, ctx)
+    if kind in ('Angle', 'FrozenAngle'):
+        return obj, r_rot(*read_ang(direct))
+    return obj, r_rot(ang[0], ang[1], ang[2])
+
+
+def mk_vec(kind, v, route=0, ctx=None):
+    if kind == 'tuple':
+        return (v[0], v[1], v[2])
+    return routed(kind, v, route, ctx)[0]
 
 
 def kind_class(kind):
@@ -355,17 +404,20 @@ MAT_KINDS = ['Matrix', 'FrozenMatrix']
 BAD_ANGLE_TEXTS = ['', '   ', 'a b c', '1 2', '1 2 3 4', '1 2 x', '(1 2', '1,2,3', None, 7, [1.0, 2.0, 3.0]]
 
 
+ROUTE = st.integers(0, 39)
+
+
 def build_strategy(tier):
     return st.fixed_dictionaries({
         'a': angle_triple(), 'form': st.sampled_from(BUILD_FORMS), 'cls': st.sampled_from(MAT_KINDS),
-        'fb': angle_triple(), 'sv': st.integers(0, 329),
+        'fb': angle_triple(), 'sv': st.integers(0, 329), 'ro': ROUTE,
     })
 
 
 def build_enumerate(tier):
     step = 45 if tier == 'quick' else 15
     for n, a in enumerate(grid_triples(step)):
-        yield {'a': a, 'form': BUILD_FORMS[n % 3], 'cls': MAT_KINDS[(n // 3) % 2], 'fb': [a[2], a[0] + 15.0, a[1] - 30.0], 'sv': n % 330}
+        yield {'a': a, 'form': BUILD_FORMS[n % 3], 'cls': MAT_KINDS[(n // 3) % 2], 'fb': [a[2], a[0] + 15.0, a[1] - 30.0], 'sv': n % 330, 'ro': n % 40}
 
 
 def angle_text(a, sv):
@@ -434,13 +486,16 @@ def exec_build(desc, ctx):
     cls = getattr(sm, desc['cls'])
     ctx.nontrivial(classify(ctx, a))
     ctx.label('form:' + desc['form'], 'cls:' + desc['cls'])
+    ro = desc.get('ro', 0)
     if desc['form'] == 'floats':
-        m = cls.from_angle(a[0], a[1], a[2])
+        m = routed(desc['cls'], a, ro, ctx)[0]
         used = a
     else:
-        ang = getattr(sm, desc['form'])(a[0], a[1], a[2])
+        ang, direct = routed(desc['form'], a, ro, ctx)
         m = cls.from_angle(ang)
-        used = read_ang(ang)
+        used = read_ang(direct)
+        ctx.check(read_ang(ang) == used, 'operand_route',
+                  f'{desc["form"]} obtained via route {ROUTES[ro % len(ROUTES)]} reports {read_ang(ang)}, the directly built one {used}')
     ctx.check(type(m) is cls, 'result_type', f'{desc["cls"]}.from_angle() returned {type(m).__name__}')
     got = read_mat(m)
     want = r_rot(*used)
@@ -487,7 +542,7 @@ def _split_ab(d):
 def compose_strategy(tier):
     return st.fixed_dictionaries({
         'v': vector(), 'tv': st.sampled_from(VEC_KINDS), 'ab': triple_pair(),
-        'ta': st.sampled_from(ROT_KINDS), 'tb': st.sampled_from(ROT_KINDS),
+        'ta': st.sampled_from(ROT_KINDS), 'tb': st.sampled_from(ROT_KINDS), 'rv': ROUTE, 'ra': ROUTE, 'rb': ROUTE,
     }).map(_split_ab)
 
 
@@ -497,9 +552,9 @@ def exec_compose(desc, ctx):
     nt_b = classify(ctx, desc['b'], 'b')
     ctx.nontrivial(nt_a and nt_b and any(v))
     ctx.label(f"{desc['tv']}@{desc['ta']}@{desc['tb']}")
-    vec = mk_vec(desc['tv'], v)
-    A, ra = mk_rot(desc['ta'], desc['a'])
-    B, rb = mk_rot(desc['tb'], desc['b'])
+    vec = mk_vec(desc['tv'], v, desc.get('rv', 0), ctx)
+    A, ra = mk_rot(desc['ta'], desc['a'], desc.get('ra', 0), ctx)
+    B, rb = mk_rot(desc['tb'], desc['b'], desc.get('rb', 0), ctx)
     rab = r_mul(ra, rb)
     scale = vnorm([float(c) for c in v])
     left = read_vec((vec @ A) @ B)
@@ -547,7 +602,7 @@ def typemix_strategy(tier):
     return st.fixed_dictionaries({
         'left': st.sampled_from(LEFT_KINDS), 'right': st.sampled_from(ROT_KINDS), 'form': st.sampled_from(FORMS),
         'v': vector(), 'ab': triple_pair(),
-        'helper': st.sampled_from(HELPERS), 'body': st.lists(st.sampled_from(BODY_STEPS), max_size=3),
+        'helper': st.sampled_from(HELPERS), 'body': st.lists(st.sampled_from(BODY_STEPS), max_size=3), 'rl': ROUTE, 'rr': ROUTE,
     }).map(_split_ab)
 
 
@@ -563,14 +618,14 @@ def _run_mix(desc, ctx):
     ctx.label(f'{lk}@{rk}', f'{form}:{lk}@{rk}')
     if lk == 'tuple':
         ctx.label('reflected:tuple@' + rk)
-    R, rr = mk_rot(rk, desc['b'])
+    R, rr = mk_rot(rk, desc['b'], desc.get('rr', 0), ctx)
     nt = classify(ctx, desc['b'], 'b')
     if lk in VEC_KINDS:
-        L = mk_vec(lk, desc['v'])
+        L = mk_vec(lk, desc['v'], desc.get('rl', 0), ctx)
         lref = [float(c) for c in desc['v']]
         nt = nt and any(lref)
     else:
-        L, lref = mk_rot(lk, desc['a'])
+        L, lref = mk_rot(lk, desc['a'], desc.get('rl', 0), ctx)
         nt = nt and classify(ctx, desc['a'], 'a')
     ctx.nontrivial(nt)
     before_l, before_r = observe(L, lk), observe(R, rk)
@@ -954,6 +1009,12 @@ _PAIRS = tuple(f'{l}@{r}' for l in LEFT_KINDS for r in ROT_KINDS)
 _PAIR_FORMS = tuple(f'{f}:{l}@{r}' for f in FORMS for l in LEFT_KINDS for r in ROT_KINDS)
 _POOLS = ('grid15', 'pole_exact', 'pole<=1e-3', 'pole_threshold_zone', 'free_large', 'free_small', 'tiny_offset')
 
+_ROUTES = ('route:FrozenAngle:freeze', 'route:Angle:thaw', 'route:FrozenMatrix:freeze', 'route:Matrix:thaw', 'route:FrozenVec:freeze',
+           'route:Vec:thaw', 'route:Matrix:to_matrix', 'route:FrozenMatrix:to_matrix') \
+    + tuple(f'route:{k}:{r}' for k in ('Vec', 'FrozenVec', 'Angle', 'FrozenAngle', 'Matrix', 'FrozenMatrix')
+            for r in ('direct', 'copy', 'copy.copy', 'deepcopy', 'pickle', 'ctor', 'ctor_twin')) \
+    + tuple(f'route:{k}:{r}' for k in ('Vec', 'FrozenVec', 'Angle', 'FrozenAngle') for r in ('from_str(obj)', 'from_str(twin)'))
+
 SUBCHECKS = [
     Sub('build', exec_build, strategy=build_strategy, enumerate=build_enumerate, quick=10000, thorough=240000, floor=500,
         must_hit=tuple('a:' + p for p in _POOLS) + tuple('form:' + f for f in BUILD_FORMS)
@@ -961,7 +1022,7 @@ SUBCHECKS = [
     Sub('compose', exec_compose, strategy=compose_strategy, quick=10000, thorough=320000, floor=500,
         must_hit=('gimbal_product',) + tuple(f'{v}@{a}@{b}' for v in VEC_KINDS for a in ROT_KINDS for b in ROT_KINDS)),
     Sub('typemix', exec_typemix, strategy=typemix_strategy, quick=10000, thorough=320000, floor=500,
-        must_hit=_PAIR_FORMS + ('gimbal_result',)),
+        must_hit=_PAIR_FORMS + ('gimbal_result',) + _ROUTES),
     Sub('operands', exec_operands, strategy=typemix_strategy, quick=6000, thorough=160000, floor=300,
         must_hit=_PAIR_FORMS + tuple('helper:' + h for h in HELPERS)),
     Sub('inplace', exec_inplace, strategy=typemix_strategy, quick=6000, thorough=160000, floor=300,
